@@ -327,7 +327,9 @@ pub fn unary(defs: &ListDefs, op: &str, a: &V) -> R {
                     }
                 }
             }
-            V::List(ListV { items, empty_origins: l.origins() })
+            // the inverse is a new list: it belongs to the lists of the items it holds, so the inverse of a complete
+            // list is a plain empty list (LIST_ALL of it is empty) - reference behaviour
+            V::List(ListV { items, empty_origins: BTreeSet::new() })
         }
         (o, v) => return Err(Fault::TypeError(format!("{o} on {v:?}"))),
     })
